@@ -9,6 +9,7 @@ import SnesVerif.Bus.Model
 import SnesVerif.Rom.BusIO
 import SnesVerif.Rom.Header
 import SnesVerif.Asm.Model
+import SnesVerif.Cpu.Impl
 
 def hexNat? (s : String) : Option Nat :=
   if s.isEmpty then none else
@@ -337,9 +338,71 @@ def run (capW textW : String) (ops : List String) : String :=
     ";".intercalate outs.reverse
 end AsmDrv
 
+/-! ### CPU cases -/
+namespace CpuDrv
+open Cpu
+
+def flagsStr (c : Regs) : String :=
+  String.join ([c.N, c.V, c.M, c.X, c.D, c.I, c.Z, c.C].map b01)
+
+/-- canonical rendering, identical to harness/internal/cpuh Regs.Canon -/
+def canon (c : Regs) : String :=
+  s!"{toHex c.PC.toNat} {toHex c.SP.toNat} {toHex c.RA.toNat} {toHex c.RX.toNat} {toHex c.RY.toNat} {toHex c.RD.toNat} " ++
+  s!"{toHex c.RAh.toNat} {toHex c.RAl.toNat} {toHex c.RXl.toNat} {toHex c.RYl.toNat} {toHex c.RDBR.toNat} {toHex c.RK.toNat} " ++
+  s!"{flagsStr c} {b01 c.E} {b01 c.B} {toHex c.Cycles.toNat} {toHex c.AllCycles.toNat} {b01 c.Stopped} {toHex c.WDM.toNat}"
+
+def parseRegs (ws : List String) : Option Regs :=
+  match ws.mapM hexNat? with
+  | some [pc, sp, ra, rx, ry, rd, rah, ral, rxl, ryl, rdbr, rk, fl, e, b, cyc, all, st, wdm] =>
+    -- `fl` is the 8 flag characters read as a hex number of 0/1 digits: N V M X D I Z C
+    let f (i : Nat) : Bool := (fl / (16 ^ i)) % 16 == 1
+    some { PC := BitVec.ofNat 16 pc, SP := BitVec.ofNat 16 sp, RA := BitVec.ofNat 16 ra, RX := BitVec.ofNat 16 rx,
+           RY := BitVec.ofNat 16 ry, RD := BitVec.ofNat 16 rd, RAh := BitVec.ofNat 8 rah, RAl := BitVec.ofNat 8 ral,
+           RXl := BitVec.ofNat 8 rxl, RYl := BitVec.ofNat 8 ryl, RDBR := BitVec.ofNat 8 rdbr, RK := BitVec.ofNat 8 rk,
+           N := f 7, V := f 6, M := f 5, X := f 4, D := f 3, I := f 2, Z := f 1, C := f 0,
+           B := b == 1, E := e == 1, Cycles := BitVec.ofNat 8 cyc, AllCycles := BitVec.ofNat 64 all, Stopped := st == 1,
+           WDM := BitVec.ofNat 8 wdm, PPC := 0, PRK := 0, stepPC := 0, EA := 0, Addr := 0, Mode := .Implied }
+  | _ => none
+
+def sortNats (l : List Nat) : List Nat := (l.toArray.qsort (· < ·)).toList
+
+def writesStr (m : Mem) : String :=
+  ",".intercalate ((sortNats m.wlog.eraseDups).map (fun a => s!"{toHex a}={toHex (m.f a).toNat}"))
+
+def parseOvl (s : String) : List (Nat × Nat) :=
+  if s == "-" then [] else
+  (s.splitOn ",").filterMap (fun kv => match kv.splitOn "=" with
+    | [a, v] => match hexNat? a, hexNat? v with | some a, some v => some (a, v) | _, _ => none
+    | _ => none)
+
+/-- `cpu <p|a> <steps> <19 register fields> <seed> <ovl>`: state and written bytes after every step -/
+def run (ws : List String) : String :=
+  match ws with
+  | v :: n :: rest =>
+    if rest.length != 21 then "bad-op" else
+    match parseRegs (rest.take 19), hexNat? (rest.getD 19 ""), hexNat? n with
+    | some r, some seed, some n =>
+      let ovl := parseOvl (rest.getD 20 "-")
+      let base : Nat → U8 := fun a => match ovl.find? (·.1 == a) with
+        | some (_, x) => BitVec.ofNat 8 x
+        | none => BitVec.ofNat 8 (hash8 seed.toUInt64 a.toUInt32).toNat
+      let variant := if v == "a" then Variant.alt else Variant.primary
+      let rec go (k : Nat) (s : St) (acc : List String) : List String :=
+        match k with
+        | 0 => acc.reverse
+        | k + 1 =>
+          match step variant s with
+          | none => ("crash" :: acc).reverse
+          | some (_, s') => go k s' ((canon s'.r ++ "|" ++ writesStr s'.m) :: acc)
+      ";".intercalate (go n ⟨r, ⟨base, []⟩⟩ [])
+    | _, _, _ => "bad-op"
+  | _ => "bad-op"
+end CpuDrv
+
 def handle (line : String) : String :=
   let line := line.trimAscii.toString
   if line.startsWith "bus " then BusDrv.run ((line.drop 4).toString.splitOn ";") else
+  if line.startsWith "cpu " then CpuDrv.run (((line.drop 4).toString.splitOn " ").filter (· ≠ "")) else
   if line.startsWith "enc " then AsmDrv.enc (((line.drop 4).toString.splitOn " ").filter (· ≠ "")) else
   if line.startsWith "asm " then
     match (line.drop 4).toString.splitOn ";" with
